@@ -70,6 +70,33 @@ pub fn c14(tier: &str, seed: u64) -> Vec<Case> {
             m.extend_from_slice(&junk);
             for target in [23u8, 25] { let mut m2 = m.clone(); m2.extend_from_slice(&[0xC0, target, 0, 1, 0, 1, 0, 0, 0, 0, 0, 4, 1, 2, 3, 4]); d.push((m2, "hidden-pointer-structure".into())); }
         }
+        // well-formed announcements and goodbyes for the watched service (what Avahi / Bonjour peers send):
+        // every record kind a peer may attach, TTLs 0 / 1 / 2^31 / 2^32-1, cache-flush bits, instance labels
+        // with spaces, dots, non-UTF-8 bytes and 63 bytes, the listener's own instance among them
+        for i in 0..(if thorough { 4000 } else { 500 }) {
+            let inst_label: Vec<u8> = match r.below(6) { 0 => b"me".to_vec(), 1 => b"My Printer".to_vec(), 2 => vec![0xFF, 0xFE, b'.'], 3 => vec![b'a'; 63], 4 => b"x.y\\z".to_vec(), _ => b"peer".to_vec() };
+            let mut inst = vec![inst_label];
+            inst.extend(service.clone());
+            let iname = mk_name(&inst);
+            let mut p = Packet::new_reply(if r.chance(1, 2) { 0 } else { r.next() as u16 });
+            if r.chance(1, 2) { p.set_flags(PacketFlag::AUTHORITATIVE_ANSWER); }
+            let n = r.range(1, 5);
+            for k in 0..n {
+                let rd = match r.below(7) {
+                    0 => RData::PTR(PTR(iname.clone())),
+                    1 => RData::SRV(simple_dns::rdata::SRV { priority: 0, weight: 0, port: r.next() as u16, target: if r.chance(1, 2) { iname.clone() } else { hostile_name(&mut r) } }),
+                    2 => RData::A(A { address: r.next() as u32 }),
+                    3 => RData::AAAA(simple_dns::rdata::AAAA { address: r.int(128) }),
+                    4 => { let mut t = simple_dns::rdata::TXT::new(); for _ in 0..r.below(3) { let l = r.below(6) as usize; t.add_char_string(crate::gen::mk_cs(&r.bytes(l))); } RData::TXT(t) }
+                    _ => g.rr_of(*r.pick(&[10usize, 16, 38, 40])).rdata,
+                };
+                let owner = if matches!(rd, RData::PTR(_)) { mk_name(&service) } else { iname.clone() };
+                let mut rr = ResourceRecord::new(owner, CLASS::IN, *r.pick(&[0u32, 0, 1, 120, 4500, 0x8000_0000, u32::MAX]), rd);
+                rr.cache_flush = r.chance(1, 3);
+                if k % 2 == 0 { p.answers.push(rr) } else { p.additional_records.push(rr) }
+            }
+            if let Ok(b) = if i % 2 == 0 { p.build_bytes_vec_compressed() } else { p.build_bytes_vec() } { d.push((b, "announcement".into())); }
+        }
         for extra in [1u16, 4, 100, 60000] { for flags in [0u8, 0x84] {
             let mut m = vec![0u8, 7, flags, 0, 0, 0, 0, 0, 0, 0, 0, 1, 0, 0, 41, 4, 0, 0, 0, 0, 0];
             m.extend_from_slice(&(4 + extra).to_be_bytes());
@@ -277,6 +304,7 @@ pub fn c15(tier: &str, seed: u64) -> Vec<Case> {
         store.add_authoritative_resource(own_a.clone());
         let mut line = format!("mdns A {} A {}", text::rr(&own_ptr), text::rr(&own_a));
         let mut advertised: Vec<(String, InstanceInformation)> = vec![];
+        let mut wires: Vec<Vec<u8>> = vec![];
         let peers = r.range(1, 3) as usize;
         let mut has_empty_key = false;
         let mut name_pool = vec!["printer", "Printer", "PRINTER", "Living-Room", "living-room", "x", "X", "a1_b", "n0"];
@@ -285,7 +313,18 @@ pub fn c15(tier: &str, seed: u64) -> Vec<Case> {
             let iname = name_pool.remove(r.below(name_pool.len() as u64) as usize).to_string();
             let mut inst = InstanceInformation::new(iname.clone());
             for _ in 0..r.below(3) { inst = inst.with_ip_address(IpAddr::V4(Ipv4Addr::from(0x0A000000 + r.below(4) as u32))); }
-            for _ in 0..r.below(2) { inst = inst.with_ip_address(IpAddr::V6(Ipv6Addr::from((0xFE80u128 << 112) + r.below(3) as u128))); }
+            for _ in 0..r.below(2) {
+                // link-local, IPv4-mapped (::ffff:a.b.c.d, possibly of an IPv4 address of the same instance),
+                // IPv4-compatible, loopback, unspecified and arbitrary addresses
+                let a: u128 = match r.below(7) {
+                    0 | 1 => (0xFE80u128 << 112) + r.below(3) as u128,
+                    2 => (0xFFFFu128 << 32) + 0x0A000000 + r.below(4) as u128,
+                    3 => 0x0A000000 + r.below(4) as u128,
+                    4 => r.below(2) as u128,
+                    _ => r.int(128),
+                };
+                inst = inst.with_ip_address(IpAddr::V6(Ipv6Addr::from(a)));
+            }
             for _ in 0..r.below(3) { inst = inst.with_port(8000 + r.below(3) as u16); }
             for _ in 0..r.below(4) {
                 let key = if r.chance(1, 30) { String::new() } else { r.pick(&["path", "v", "é", "k k", "a;b"]).to_string() };
@@ -307,12 +346,14 @@ pub fn c15(tier: &str, seed: u64) -> Vec<Case> {
                 let mut bye = p.clone();
                 for rec in bye.answers.iter_mut() { rec.ttl = 0; }
                 let wire = bye.build_bytes_vec_compressed().unwrap();
+                wires.push(wire.clone());
                 let parsed = Packet::parse(&wire).unwrap();
                 line.push_str(&format!(" I 0 {} {} {}", text::name(&service), text::name(&own), text::packet(&parsed)));
                 let mut ch = None;
                 sync_add_response_to_resources(parsed, &service, &own, &mut store, &mut ch);
             }
             let wire = p.build_bytes_vec_compressed().unwrap();
+            wires.push(wire.clone());
             let parsed = Packet::parse(&wire).unwrap();
             line.push_str(&format!(" I 0 {} {} {}", text::name(&service), text::name(&own), text::packet(&parsed)));
             let mut ch = None;
@@ -328,6 +369,39 @@ pub fn c15(tier: &str, seed: u64) -> Vec<Case> {
         let got = sorted(found.iter().map(|i| inst_text(i, &i.unescaped_instance_name())).collect());
         if want != got { c = c.fail(if has_empty_key { "empty-attribute-key" } else { "discovery-differs" }, format!("advertised {} discovered {}", want, got)); }
         if it % 50 == 0 { c = c.tag("sample"); }
+        // the reports on the on_discovery channel: every announcement is reported, through the std channel
+        // of the sync flavour and through a tokio channel of capacity 1 whose reader is slow (the sender
+        // has to wait, it may not drop a report)
+        if it % 8 == 0 {
+            let (tx, rx) = std::sync::mpsc::channel::<InstanceInformation>();
+            let mut st2: ResourceRecordManager<'static> = ResourceRecordManager::new();
+            let mut ch = Some(tx);
+            for w in &wires { let p = Packet::parse(w).unwrap(); sync_add_response_to_resources(p, &service, &own, &mut st2, &mut ch); }
+            drop(ch);
+            let sync_reports: Vec<String> = rx.iter().map(|i| inst_text(&i, &i.unescaped_instance_name())).collect();
+            let (wires_c, service_c, own_c) = (wires.clone(), service.clone(), own.clone());
+            watch("async on_discovery channel");
+            let async_reports: Vec<String> = {
+                let rt = tokio::runtime::Builder::new_current_thread().build().unwrap();
+                rt.block_on(async move {
+                    let (tx, mut rx) = tokio::sync::mpsc::channel::<InstanceInformation>(1);
+                    let producer = tokio::spawn(async move {
+                        let mut st3: ResourceRecordManager<'static> = ResourceRecordManager::new();
+                        let mut ch = Some(tx);
+                        for w in &wires_c { let p = Packet::parse(w).unwrap(); simple_mdns::verif::async_add_response_to_resources(p, &service_c, &own_c, &mut st3, &mut ch).await; }
+                    });
+                    for _ in 0..16 { tokio::task::yield_now().await; }
+                    let mut got = vec![];
+                    while let Some(i) = rx.recv().await { got.push(inst_text(&i, &i.unescaped_instance_name())); }
+                    let _ = producer.await;
+                    got
+                })
+            };
+            let mut cc = Case::oracle_only().tag("on-discovery-channel");
+            if sync_reports != async_reports { cc = cc.fail("reports-differ", format!("sync flavour reported {} instance(s), the tokio flavour with a slow reader {}", sync_reports.len(), async_reports.len())); }
+            for (n, i) in &advertised { let t = inst_text(i, n); if !has_empty_key && !sync_reports.contains(&t) { cc = cc.fail("not-reported", format!("advertised instance {} was never reported on the channel", n)); } }
+            v.push(cc);
+        }
         v.push(c);
     }
     // escaping then unescaping an instance name returns the original
